@@ -302,7 +302,12 @@ func wRunCase(o *common.Out, id string, c wCase, r *common.Rand) {
 		srv.AsyncWrite = c.async
 		var sconn net.Conn
 		accepted := make(chan struct{})
+		later := make(chan net.Conn, 4) // connections accepted after the one under test (not gated)
 		srv.Plugins.Add(&acceptWrap{f: func(cn net.Conn) net.Conn {
+			if sconn != nil {
+				later <- cn
+				return cn
+			}
 			w := &wConn{Conn: cn, g: gate}
 			sconn = w
 			close(accepted)
@@ -316,6 +321,14 @@ func wRunCase(o *common.Out, id string, c wCase, r *common.Rand) {
 				return err
 			}
 			return ctx.Write(&BReply{Id: a.Id, Pad: a.Pad + a.Pad})
+		})
+		// a router handler that fails: its error response goes through Context.WriteError
+		srv.AddHandler("Rt08", "Fail", func(ctx *server.Context) error {
+			var a BArgs
+			if err := ctx.Bind(&a); err != nil {
+				return err
+			}
+			return fmt.Errorf("rt08 failed %d %s", a.Id, a.Pad)
 		})
 		go srv.ServeListener("vpipe", ln)
 		<-srv.Started
@@ -358,6 +371,47 @@ func wRunCase(o *common.Out, id string, c wCase, r *common.Rand) {
 				rh[2] |= 0x80
 				pred[i] = wFrame{hdr: rh, path: "Rt08", method: "Echo",
 					pre: fmt.Sprintf(`{"Id":%d,"Pad":"`, i), n: 2 * w.pad, suf: `"}`}
+			case "E":
+				var h [12]byte
+				h[0], h[3] = 8, 1<<4
+				binary.BigEndian.PutUint64(h[4:], uint64(100+i))
+				args, _ := json.Marshal(&BArgs{Id: i, Pad: strings.Repeat("x", w.pad)})
+				req := refcodec.Build(h, []byte("Rt08"), []byte("Fail"), nil, args)
+				starters = append(starters, func() { pc.Write(req) })
+				rh := h
+				rh[2] |= 0x80 | 0x01 // response, status Error
+				pred[i] = wFrame{hdr: rh, path: "Rt08", method: "Fail",
+					meta: []refcodec.KV{{K: []byte(protocol.ServiceError), V: []byte(fmt.Sprintf("rt08 failed %d %s", i, strings.Repeat("x", w.pad)))}}}
+			case "X":
+				// a push to a connection whose peer is gone: the frame is encoded into a pooled buffer, the write
+				// fails, the buffer goes back - nothing reaches the connection under test
+				pushSeq++
+				var h [12]byte
+				h[0], h[2] = 8, 0x20
+				binary.BigEndian.PutUint64(h[4:], uint64(pushSeq))
+				data := []byte(strings.Repeat("x", w.pad))
+				starters = append(starters, func() {
+					dc, err := ln.dial()
+					if err != nil {
+						return
+					}
+					var dead net.Conn
+					select {
+					case dead = <-later:
+					case <-time.After(2 * time.Second):
+						return
+					}
+					dc.Close()
+					// the server notices the peer is gone and closes its end; then the push is attempted
+					for k := 0; k < 400; k++ {
+						if _, err := dead.Write(nil); err != nil {
+							break
+						}
+						time.Sleep(500 * time.Microsecond)
+					}
+					srv.SendMessage(dead, "push", "notify", nil, data)
+				})
+				pred[i] = wFrame{hdr: h, path: "push", method: "notify", n: w.pad}
 			case "H":
 				var h [12]byte
 				h[0], h[2], h[3] = 8, 0x40, 1<<4
@@ -451,6 +505,7 @@ func wRunCase(o *common.Out, id string, c wCase, r *common.Rand) {
 	var order []int
 	total := 0
 	var fails []string
+	var xs []int // writers of kind X that ran (no transport write on the connection under test)
 	clientSeq := 0
 	for _, op := range c.ops {
 		i, _ := strconv.Atoi(op[1:])
@@ -462,6 +517,12 @@ func wRunCase(o *common.Out, id string, c wCase, r *common.Rand) {
 				clientSeq++
 			}
 			n := gate.count()
+			if c.ws[i].kind == "X" {
+				starters[i]() // synchronous: encode, failed write, buffer returned
+				sched = append(sched, "g"+strconv.Itoa(i), "p"+strconv.Itoa(i))
+				xs = append(xs, i)
+				continue
+			}
 			starters[i]()
 			if !gate.waitCount(n+1, 2*time.Second) {
 				fails = append(fails, fmt.Sprintf("no-write: writer %d (%s) never reached the transport", i, c.ws[i].kind))
@@ -472,7 +533,7 @@ func wRunCase(o *common.Out, id string, c wCase, r *common.Rand) {
 		case 'r':
 			k, ok := arrOf[i]
 			if !ok {
-				continue
+				continue // never reached the gate (or a push to a dead connection: nothing to release)
 			}
 			a := gate.get(k)
 			close(a.rel)
@@ -544,6 +605,9 @@ func wRunCase(o *common.Out, id string, c wCase, r *common.Rand) {
 			}
 		}
 	}
+	for _, i := range xs {
+		toks = append(toks, pred[i].tok(i), "X;"+strconv.Itoa(i))
+	}
 	toks = append(toks, "S;"+strings.Join(sched, ","))
 	o.Case(id, strings.Join(toks, " "), obs, len(order) >= 2)
 	for _, f := range fails {
@@ -591,7 +655,7 @@ func genWCase(r *common.Rand, tier string) wCase {
 	for i := 0; i < n; i++ {
 		var k string
 		if c.side == "srv" {
-			k = []string{"R", "R", "C", "C", "H", "H", "P"}[r.Intn(7)]
+			k = []string{"R", "R", "C", "C", "H", "H", "P", "E", "X"}[r.Intn(9)]
 		} else {
 			k = []string{"G", "G", "G", "O", "S"}[r.Intn(5)]
 		}
@@ -652,6 +716,21 @@ func runShared(r *common.Rand, tier string, o *common.Out, replay string) {
 						wRunCase(o, fmt.Sprintf("sys%d", n), c, r)
 						n++
 					}
+				}
+			}
+		}
+	}
+	// the same after an error path has run: a router handler's error response (Context.WriteError), a push whose
+	// write fails because the peer is gone - each path returns its frame buffer exactly once
+	for _, k0 := range []string{"E", "X"} {
+		for _, k1 := range []string{"R", "C", "H", "P", "E"} {
+			for _, k2 := range []string{"R", "C", "P"} {
+				for _, async := range []bool{false, true} {
+					c := wCase{side: "srv", async: async, oneP: true,
+						ws:  []wWriter{{kind: k0, pad: 100}, {kind: k1, pad: 120}, {kind: k2, pad: 90}},
+						ops: []string{"s0", "r0", "s1", "s2", "r2", "r1"}}
+					wRunCase(o, fmt.Sprintf("sys%d", n), c, r)
+					n++
 				}
 			}
 		}
